@@ -634,6 +634,9 @@ def _check_handle_escape(eng, f, la, call, guard, need, acc):
         return True, ""
     if len(ptypes) > 1 and is_mutex_type(ptypes[1]):
         mp = path(f, a1)
+        r = eng.handle_ctor_lock(f, la, call, f.pos_of(call)) if call["k"] in CTORS else None
+        if r is not None and r[0].st != HELD:
+            return False, "the handle constructor does not (always) lock %s any more: its lock is %s after construction" % (mp, r[0].st)
         if mp == guard:
             return True, ""
         return False, "handle locks %s, not the object's own %s" % (mp, guard[5:])
